@@ -15,7 +15,6 @@ CONSTANTS
 INVARIANT Reached
 INVARIANT FrameDelimited
 INVARIANT NoBleed
-INVARIANT WriteResult
 INVARIANT ReadExact
 INVARIANT TimeoutClean
 INVARIANT NoOverRead
